@@ -48,6 +48,14 @@ type Req struct {
 	Seed     uint64   `json:"seed,omitempty"`
 	Schedule []int    `json:"schedule,omitempty"` // replay: goroutine ids in order
 	Calls    []Call   `json:"calls,omitempty"`    // seq mode
+	// volume mode: N distinct inputs "<tag><i>-<word>", all of one length, generated in the worker; the
+	// words are irregular words of the asked rule type (PWords for Pluralize, SWords for Singularize), so
+	// every result must be "<tag><i>-" + f(word), and asking again must give the same answer
+	N          int      `json:"n,omitempty"`
+	PWords     []string `json:"p_words,omitempty"`
+	SWords     []string `json:"s_words,omitempty"`
+	Tag        string   `json:"tag,omitempty"`
+	Goroutines int      `json:"goroutines,omitempty"`
 }
 
 // Resp is the answer.
@@ -62,6 +70,9 @@ type Resp struct {
 	Blocked  []string       `json:"blocked,omitempty"`
 	Diverged bool           `json:"diverged,omitempty"` // a replayed schedule named a goroutine that was not runnable
 	Probes   map[string]int `json:"probes,omitempty"`
+	// volume mode
+	Checked    int      `json:"checked,omitempty"`
+	Mismatches []string `json:"mismatches,omitempty"`
 }
 
 // SetRet stores a return value JSON-safely.
@@ -81,3 +92,17 @@ func (r Result) Value() string {
 	b, _ := hex.DecodeString(r.Ret)
 	return string(b)
 }
+
+// VolumeInput is the i-th input of a volume run: tag, the index zero-padded so that every input is
+// VolumeLen bytes long, a hyphen, the word.
+func VolumeInput(tag string, i int, word string) string {
+	n := VolumeLen - len(tag) - 1 - len(word)
+	b := make([]byte, n)
+	for k := n - 1; k >= 0; k-- {
+		b[k] = byte('0' + i%10)
+		i /= 10
+	}
+	return tag + string(b) + "-" + word
+}
+
+const VolumeLen = 24
